@@ -275,7 +275,7 @@ impl Prop for C03P {
             }
             "near-miss-coercions" => {
                 let mut r = Rng::for_case(ctx.seed, 6, idx);
-                let c = crate::coerce::gen_coercion(&mut r, idx % 3 == 2);
+                let c = crate::coerce::gen_any(&mut r, idx % 3 == 2);
                 let src = print(&c.h, &Style::varied(&mut r), idx).text;
                 ctx.count(&format!("coercion:{}", c.shape));
                 judge_against_reference(ctx, &c.h, "near-miss-coercion", &src, "coercion");
@@ -311,7 +311,7 @@ impl Prop for C03P {
             }
             "near-miss-coercions" => {
                 let mut r = Rng::for_case(seed, 6, idx);
-                let c = crate::coerce::gen_coercion(&mut r, idx % 3 == 2);
+                let c = crate::coerce::gen_any(&mut r, idx % 3 == 2);
                 print(&c.h, &Style::varied(&mut r), idx).text
             }
             "perturbed-explicit-programs" => {
